@@ -13,6 +13,7 @@ import (
 	"io"
 	"net/http"
 	"reflect"
+	"regexp"
 	"runtime"
 	"strings"
 	"sync"
@@ -134,6 +135,8 @@ func (w *world) bodies() []string {
 		fmt.Sprintf(`{"code":"an%d","kind":3}`, n),
 		fmt.Sprintf(`{"code":"an%d","opt":{"deep":"given"},"n":1,"kind":9}`, n),
 		`{"tags":[]}`,
+		// upper case: matches the pattern only under the case-insensitive regex compiler of the "-ci" operations
+		fmt.Sprintf(`{"code":"ABn%d","tags":["T%d1"]}`, n, n),
 	}
 }
 
@@ -188,13 +191,17 @@ func (w *world) run(op Op) string {
 			return "route-error"
 		}
 		return "route:" + route.Path + ":" + route.Method
-	case "request", "request-skip":
+	case "request", "request-skip", "request-ci":
 		req := w.request(op.Variant)
 		route, pp, err := w.gmux.FindRoute(req)
 		if err != nil {
 			return "route-error"
 		}
 		in := &openapi3filter.RequestValidationInput{Request: req, PathParams: pp, Route: route, Options: &openapi3filter.Options{SkipSettingDefaults: op.Kind == "request-skip", MultiError: op.Variant%2 == 0}}
+		if op.Kind == "request-ci" {
+			// a per-call regex implementation: what it decides must stay with this call
+			in.Options.RegexCompiler = caseInsensitive
+		}
 		if err := openapi3filter.ValidateRequest(context.Background(), in); err != nil {
 			return "request-invalid"
 		}
@@ -222,7 +229,7 @@ func (w *world) run(op Op) string {
 			return "response-invalid"
 		}
 		return "response-valid"
-	case "visit", "visit-multi", "visit-req":
+	case "visit", "visit-multi", "visit-req", "visit-ci":
 		var v any
 		bs := w.bodies()
 		_ = json.Unmarshal([]byte(bs[op.Variant%len(bs)]), &v)
@@ -232,6 +239,8 @@ func (w *world) run(op Op) string {
 			opts = append(opts, openapi3.MultiErrors())
 		case "visit-req":
 			opts = append(opts, openapi3.VisitAsRequest(), openapi3.DefaultsSet(func() {}))
+		case "visit-ci":
+			opts = append(opts, openapi3.SetSchemaRegexCompiler(caseInsensitive))
 		}
 		if err := w.doc.Components.Schemas["Item"].Value.VisitJSON(v, opts...); err != nil {
 			return "visit-invalid"
@@ -286,13 +295,22 @@ func check(c Case) (o h.Outcome) {
 		o.Fail(pi.Signature(), "a concurrent operation panicked: %s\n%s", pi.Text, pi.Stack)
 		return
 	}
-	// expected verdicts: each operation alone, on a second document loaded from the same bytes
-	seq := newWorld(c.Nonce)
+	// expected verdicts: each operation run sequentially in a world whose patterns, identifiers and Go
+	// types carry another nonce (congruent modulo 5, which the pattern bounds depend on), so that no
+	// process-wide cache filled during the concurrent phase can colour it. Operations that bring their
+	// own regex implementation get a world of their own, so that they cannot colour the others
+	// either; the nonce is mapped back in the verdict text.
+	nonceDefault, nonceCI := c.Nonce+500000, c.Nonce+1000000
+	aloneDefault, aloneCI := newWorld(nonceDefault), newWorld(nonceCI)
 	want := make([][]string, len(c.Ops))
 	for g, ops := range c.Ops {
 		want[g] = make([]string, len(ops))
 		for i, op := range ops {
-			want[g][i] = seq.run(op)
+			if strings.HasSuffix(op.Kind, "-ci") {
+				want[g][i] = strings.ReplaceAll(aloneCI.run(op), fmt.Sprint(nonceCI), fmt.Sprint(c.Nonce))
+			} else {
+				want[g][i] = strings.ReplaceAll(aloneDefault.run(op), fmt.Sprint(nonceDefault), fmt.Sprint(c.Nonce))
+			}
 		}
 	}
 	kinds := map[string]bool{}
@@ -330,7 +348,11 @@ func trunc(s string) string {
 	return s
 }
 
-var opKinds = []string{"route-g", "route-l", "request", "request", "request-skip", "response", "visit", "visit-multi", "visit-req", "gen"}
+var opKinds = []string{"route-g", "route-l", "request", "request", "request-skip", "request-ci", "response", "visit", "visit-multi", "visit-req", "visit-ci", "gen"}
+
+func caseInsensitive(expr string) (openapi3.RegexMatcher, error) {
+	return regexp.Compile("(?i)" + expr)
+}
 
 func gen(t *rapid.T) Case {
 	c := Case{Nonce: rapid.IntRange(1, 1<<20).Draw(t, "nonce"), Goroutines: rapid.SampledFrom([]int{2, 4, 8, 16}).Draw(t, "g"), Procs: rapid.SampledFrom([]int{2, 4, 16}).Draw(t, "procs")}
